@@ -20,6 +20,18 @@ pub open spec fn hyrax_state(s: SS, vk: &HyraxUniversalParams, coms: Seq<&Labele
 pub open spec fn hyrax_chal(s: SS, vk: &HyraxUniversalParams, coms: Seq<&LabeledCommitment<HyraxCommitment>>, point: Seq<FS>, proofs: Seq<HyraxProof>, i: nat) -> FS {
     sp_sqn_fe(hyrax_absorbed(hyrax_state(s, vk, coms, point, proofs, i), vk, &coms[i as int].commitment, point, &proofs[i as int]), 1, 0)
 }
+// tensor_prime (hyrax/utils.rs): all 2^n products prod_i (v_i or 1 - v_i); the first coordinate selects the upper half
+pub open spec fn tensor_prime_spec(v: Seq<FS>) -> Seq<FS> decreases v.len() {
+    if v.len() == 0 { seq![f_one()] } else {
+        let t = tensor_prime_spec(v.subrange(1, v.len() as int));
+        Seq::new(t.len(), |i: int| f_mul(t[i], f_sub(f_one(), v[0]))) + Seq::new(t.len(), |i: int| f_mul(t[i], v[0]))
+    }
+}
+pub proof fn lemma_tensor_prime_len(v: Seq<FS>) ensures tensor_prime_spec(v).len() == vstd::arithmetic::power2::pow2(v.len()) decreases v.len()
+{
+    vstd::arithmetic::power2::lemma2_to64();
+    if v.len() > 0 { lemma_tensor_prime_len(v.subrange(1, v.len() as int)); vstd::arithmetic::power2::lemma_pow2_unfold(v.len()); }
+}
 pub open spec fn rev_seq(s: Seq<FS>) -> Seq<FS> { Seq::new(s.len(), |i: int| s[s.len() - 1 - i]) }
 pub open spec fn hyrax_l(point: Seq<FS>) -> Seq<FS> { tensor_prime_spec(rev_seq(point).subrange((point.len() / 2) as int, point.len() as int)) }
 pub open spec fn hyrax_r(point: Seq<FS>) -> Seq<FS> { tensor_prime_spec(rev_seq(point).subrange(0, (point.len() / 2) as int)) }
